@@ -46,6 +46,11 @@ pub enum Op {
     Len,
     Size,
     IsClosed,
+    /// `is_empty()` (must agree with a length the queue had during the call)
+    #[serde(alias = "IsEmpty")]
+    IsEmpty,
+    /// `capacity()` (constant)
+    Capacity,
     /// wait for the listed tasks (script indices) to finish
     Join(Vec<u32>),
 }
@@ -172,7 +177,9 @@ pub fn generate(run_seed: u64) -> QueueSpec {
                         70..=79 => Op::TryPull,
                         80..=86 => Op::Len,
                         87..=93 => Op::Size,
-                        94..=97 => Op::IsClosed,
+                        94..=95 => Op::IsClosed,
+                        96 => Op::IsEmpty,
+                        97 => Op::Capacity,
                         _ => Op::Close,
                     }
                 } else {
@@ -182,7 +189,9 @@ pub fn generate(run_seed: u64) -> QueueSpec {
                         70..=76 => Op::TryPush { prio, size, uid: next_uid() },
                         77..=83 => Op::Len,
                         84..=90 => Op::Size,
-                        91..=95 => Op::IsClosed,
+                        91..=93 => Op::IsClosed,
+                        94 => Op::IsEmpty,
+                        95 => Op::Capacity,
                         _ => Op::Close,
                     }
                 };
@@ -237,6 +246,8 @@ fn op_code(op: &Op) -> u64 {
         Op::Size => 7,
         Op::IsClosed => 8,
         Op::Join(_) => 9,
+        Op::IsEmpty => 10,
+        Op::Capacity => 11,
     }
 }
 
@@ -305,6 +316,16 @@ fn run_script(q: &MemoryBoundedQueue<Item>, script: &[Op], handles: &mut Vec<Opt
                 verif::event(K_INV, 8, 0, 0);
                 let v = q.is_closed();
                 verif::event(K_RET, 8, R_VALUE, v as u64);
+            }
+            Op::IsEmpty => {
+                verif::event(K_INV, 10, 0, 0);
+                let v = q.is_empty();
+                verif::event(K_RET, 10, R_VALUE, v as u64);
+            }
+            Op::Capacity => {
+                verif::event(K_INV, 11, 0, 0);
+                let v = q.capacity();
+                verif::event(K_RET, 11, R_VALUE, v as u64);
             }
             Op::Join(ids) => {
                 for &i in ids {
@@ -468,6 +489,8 @@ pub fn check(
                 6 => items.len() as u64,
                 7 => bytes,
                 8 => closed as u64,
+                10 => items.is_empty() as u64,
+                11 => cap,
                 _ => continue,
             };
             p.seen.push(v);
@@ -493,6 +516,8 @@ pub fn check(
                     6 => p.seen.push(items.len() as u64),
                     7 => p.seen.push(bytes),
                     8 => p.seen.push(closed as u64),
+                    10 => p.seen.push(items.is_empty() as u64),
+                    11 => p.seen.push(cap),
                     _ => {}
                 }
                 if pending.insert(e.task, p).is_some() {
@@ -637,7 +662,7 @@ pub fn check(
                             bad!("close", "close returned but the queue is not closed");
                         }
                     }
-                    (6, R_VALUE) | (7, R_VALUE) | (8, R_VALUE) => {
+                    (6, R_VALUE) | (7, R_VALUE) | (8, R_VALUE) | (10, R_VALUE) | (11, R_VALUE) => {
                         if !p.seen.contains(&e.c) {
                             bad!("observer", "observer op {} returned {} but the model took only {:?} during the call", p.code, e.c, p.seen);
                         }
@@ -806,6 +831,8 @@ pub fn linearizable(spec: &QueueSpec, events: &[Event]) -> Option<Result<(), Str
                 (6, R_VALUE) => if o.val == count { Some((q, closed)) } else { None },
                 (7, R_VALUE) => if o.val == b { Some((q, closed)) } else { None },
                 (8, R_VALUE) => if o.val == closed as u64 { Some((q, closed)) } else { None },
+                (10, R_VALUE) => if o.val == (count == 0) as u64 { Some((q, closed)) } else { None },
+                (11, R_VALUE) => if o.val == cap { Some((q, closed)) } else { None },
                 _ => None,
             };
             if let Some((q2, c2)) = next {
